@@ -1,5 +1,6 @@
 import TextxVerif.Wire
 import TextxVerif.BaseTypes
+import TextxVerif.BaseTypesLine
 import TextxVerif.Kwd
 /-! Driver for the regex engine, the base types (C04) and autokwd (C21).
 Characters travel as code points.  `cc` = {"d":[cp…],"w":[cp…],"s":[cp…],"f":[[cp,cp]…]}: Python's classification
@@ -7,6 +8,11 @@ of the non-ASCII characters of the case (digits, other word characters, spaces, 
 ops:
   {"op":"match","re":AST|"name":N,"cc":…,"items":[[prev|-1,[cp…]]…]} → {"lens":[n|-1 …]}
   {"op":"tokens","type":T,"cc":…,"text":[cp…]}                        → {"ok":true,"vals":[V…]} | {"ok":false,"left":n}
+        optional "items":[[ws cps, literal cps]…],"tail":[cp…] (how the harness composed the text) adds
+          "hyp": lineHyp T items tail ∧ litLine items tail = text   (the hypotheses of C04_line_checked, decided by Lean)
+          "kinds": litKind of every literal (0 none, 1 int literal, 2 float literal with '.' or exponent)
+          "want": litVal T of every literal (what C04_line_checked says the line yields)
+        optional "ints":["decimal"…] adds "strs": Py.strInt of each (Python's str(int))
   {"op":"proc","name":N,"text":[cp…]}                                 → {"val":V}
   {"op":"kwlike","cc":…,"lits":[[cp…]…],"icase":b}                     → {"kw":[b…]}
   {"op":"compile","cc":…,"lits":[[cp…]…],"autokwd":b,"icase":b}        → {"toks":[{"kind":"str","lit":…,"icase":b}|{"kind":"re","re":AST,"value":[cp…],"groups":n}…]}
@@ -140,6 +146,10 @@ partial def pe? (j : Json) : Option Kwd.PE := do
   | "sepstar" => pure (Kwd.PE.sepStar (← pe? (← a[1]?)) (← pe? (← a[2]?)))
   | _ => none
 
+def lineItem? (j : Json) : Option (BaseTypes.Item (List Char)) := do
+  let a ← asArr? j
+  pure ⟨← chars? (← a[0]?), ← chars? (← a[1]?)⟩
+
 def handle (j : Json) : Json :=
   match getStr? j "op" with
   | some "match" =>
@@ -157,9 +167,28 @@ def handle (j : Json) : Json :=
   | some "tokens" =>
     match (getStr? j "type").bind type?, cc? j, (getObj? j "text").bind chars? with
     | some ty, some cc, some text =>
-      match BaseTypes.tokens cc ty text with
-      | .ok vals => Json.mkObj [("ok", toJson true), ("vals", toJson (vals.map valJ))]
-      | .error n => Json.mkObj [("ok", toJson false), ("left", toJson n)]
+      let base : Option (List (String × Json)) :=
+        match BaseTypes.tokens cc ty text with
+        | .ok vals => some [("ok", toJson true), ("vals", toJson (vals.map valJ))]
+        | .error n => some [("ok", toJson false), ("left", toJson n)]
+      let line : Option (List (String × Json)) :=
+        match getObj? j "items" with
+        | none => some []
+        | some its => do
+          let items ← (← asArr? its).toList.mapM lineItem?
+          let tail ← (getObj? j "tail").bind chars?
+          pure [("hyp", toJson (BaseTypes.lineHyp ty items tail && BaseTypes.litLine id items tail == text)),
+                ("kinds", toJson (items.map fun i => BaseTypes.litKind i.lit)),
+                ("want", toJson (items.map fun i => valJ (BaseTypes.litVal ty i.lit)))]
+      let ints : Option (List (String × Json)) :=
+        match getObj? j "ints" with
+        | none => some []
+        | some a => do
+          let zs ← (← asArr? a).toList.mapM fun x => do (← asStr? x).toInt?
+          pure [("strs", toJson (zs.map fun z => cps (Py.strInt z)))]
+      match base, line, ints with
+      | some b, some l, some i => Json.mkObj (b ++ l ++ i)
+      | _, _, _ => badOp
     | _, _, _ => badOp
   | some "proc" =>
     match (getStr? j "name").bind proc?, (getObj? j "text").bind chars? with
